@@ -34,6 +34,8 @@ QUICK = [
                   "BinOps": "<- OpsFew", "MaxN": "4", "MaxStk": "2", "MaxCtx": "2", "MaxStmts": "2"}, None),   # define, then call
     ("fopbad", {"Fam": "<- FamFopPre", "LitPool": "<- Lits1", "Names": "<- Names1", "Prelude": "<- PreFopBad",
                 "MaxN": "5", "MaxStk": "3", "MaxStmts": "1"}, None),    # callbacks whose answers map / filter cannot use
+    ("copyparam", {"Fam": "<- FamSelUse", "LitPool": "<- Lits1", "Names": "<- Names1", "BinOps": "<- Ops1",
+                   "FldNames": "<- Flds2", "Prelude": "<- PreCopyFn", "MaxN": "4", "MaxStk": "2", "MaxStmts": "1"}, None),
     ("moduse", {"Fam": "<- FamModUse", "LitPool": "<- Lits2", "Names": "<- Names1", "BinOps": "<- Ops1",
                 "FldNames": "<- FldsP", "CastTys": "<- CastsIS", "Prelude": "<- PreMod", "MaxN": "4", "MaxStk": "2",
                 "MaxStmts": "1"}, None),         # the instance of a module as an operand
